@@ -106,6 +106,40 @@ func sameFieldLoad(a, b ssa.Value) bool {
 	return oa != nil && ob != nil && fa == fb && ba == bb
 }
 
+// mapPutCall recognises a static call of a module function that stores into one of its own (map-typed) parameters on every
+// path to its returns (a `put` method of a named map type, or a helper): it returns the argument that is written into.
+func mapPutCall(ins ssa.Instruction) (ssa.Value, bool) {
+	call, ok := ins.(*ssa.Call)
+	if !ok || call.Call.IsInvoke() {
+		return nil, false
+	}
+	f := call.Call.StaticCallee()
+	if f == nil || !prog.InModule(f) || f.Blocks == nil {
+		return nil, false
+	}
+	for k, q := range f.Params {
+		if _, isMap := q.Type().Underlying().(*types.Map); !isMap || k >= len(call.Call.Args) {
+			continue
+		}
+		var upd ssa.Instruction
+		for _, b := range f.Blocks {
+			for _, i2 := range b.Instrs {
+				if mu, ok := i2.(*ssa.MapUpdate); ok && mu.Map == ssa.Value(q) {
+					upd = mu
+				}
+			}
+		}
+		if upd == nil {
+			continue
+		}
+		if x, _ := an.Cut(an.CutQuery{From: an.Entry(f), Target: func(i ssa.Instruction) bool { _, isRet := i.(*ssa.Return); return isRet },
+			AcceptInstr: func(i ssa.Instruction) bool { return i == upd }}); x == nil {
+			return call.Call.Args[k], true
+		}
+	}
+	return nil, false
+}
+
 // OverlayRules: C18.O3 overlay-merge, C18.O4 overlay-write (also C12.O4).
 func (c *Ctx) OverlayRules(prop string) {
 	rule3 := "C18.O3 overlay-merge"
@@ -145,11 +179,14 @@ func (c *Ctx) OverlayRules(prop string) {
 	nupd := 0
 	for _, b := range add.Blocks {
 		for _, ins := range b.Instrs {
-			mu, ok := ins.(*ssa.MapUpdate)
-			if !ok {
+			var root ssa.Value
+			if mu, ok := ins.(*ssa.MapUpdate); ok {
+				root, _, _ = innerMapOf(mu.Map, 0)
+			} else if m, ok := mapPutCall(ins); ok {
+				root = m
+			} else {
 				continue
 			}
-			root, _, _ := innerMapOf(mu.Map, 0)
 			if f, ok := isFieldMap(root); ok {
 				overlay[f] = true
 				nupd++
@@ -163,12 +200,12 @@ func (c *Ctx) OverlayRules(prop string) {
 	var acctOverlay, keyOverlay, acctStart, keyStart string
 	for i := 0; i < st.NumFields(); i++ {
 		f := st.Field(i)
-		mt, ok := f.Type().(*types.Map)
+		mt, ok := f.Type().Underlying().(*types.Map)
 		if !ok {
 			continue
 		}
-		_, inner := mt.Elem().(*types.Map)
-		_, arrKey := mt.Key().(*types.Array)
+		_, inner := mt.Elem().Underlying().(*types.Map)
+		_, arrKey := mt.Key().Underlying().(*types.Array)
 		switch {
 		case inner && overlay[f.Name()]:
 			acctOverlay = f.Name()
@@ -190,6 +227,10 @@ func (c *Ctx) OverlayRules(prop string) {
 		for _, want := range []string{acctOverlay, keyOverlay} {
 			want := want
 			isUpd := func(i ssa.Instruction) bool {
+				if m, ok := mapPutCall(i); ok {
+					f, _ := isFieldMap(m)
+					return f == want
+				}
 				mu, ok := i.(*ssa.MapUpdate)
 				if !ok {
 					return false
@@ -238,6 +279,9 @@ func (c *Ctx) OverlayRules(prop string) {
 				case *ssa.MapUpdate:
 					root, _, _ = innerMapOf(x.Map, 0)
 				case *ssa.Call:
+					if m, ok := mapPutCall(x); ok {
+						root = m
+					}
 					if bi, ok := x.Call.Value.(*ssa.Builtin); ok && (bi.Name() == "delete" || bi.Name() == "clear") {
 						root = x.Call.Args[0]
 						if lk, ok := root.(*ssa.Lookup); ok {
